@@ -197,6 +197,58 @@ def table():
     rows.append(row("leave Scope whose body made an activity runnable",
                     {"op": "scope", "label": "S", "children": [], "body": [late]},
                     between=("scope.body-", "scope-")))
+    # signalling operations with somebody waiting for the signal: the waiter is made runnable,
+    # the signaller still has to yield ("hand over and return at once" is the tempting shortcut)
+    def waiter(expr):
+        return [{"name": "h", "ops": [{"op": "wait", "id": "hw", "x": expr}]}]
+    settle = [{"op": "postpone", "k": 3}]
+    rows.append(row("Flag.set(True) with a waiter on the flag",
+                    {"op": "flag_set", "on": "F", "to": True}, {"F": {"kind": "flag"}},
+                    helpers=waiter({"k": "flag", "n": "F"}), setup=settle))
+    rows.append(row("Flag.set(False) with a waiter on its inverse",
+                    {"op": "flag_set", "on": "F", "to": False}, {"F": {"kind": "flag", "init": True}},
+                    helpers=waiter({"k": "not", "x": {"k": "flag", "n": "F"}}), setup=settle))
+    rows.append(row("Flag.set(True) with an until-block guarded by it",
+                    {"op": "flag_set", "on": "F", "to": True}, {"F": {"kind": "flag"}},
+                    helpers=[{"name": "h", "ops": [{"op": "scope", "label": "HU", "children": [],
+                                                    "until": {"k": "flag", "n": "F"},
+                                                    "body": [{"op": "eternity"}]}]}],
+                    setup=settle))
+    rows.append(row("Tracked.set new with a waiter on a comparison",
+                    {"op": "tr_set", "on": "X", "to": 5}, tracked,
+                    helpers=waiter({"k": "cmp", "l": "X", "op": ">=", "r": 5}), setup=settle))
+    rows.append(row("await (tracked + 1) with a waiter on a comparison",
+                    {"op": "tr_add", "on": "X", "by": 1}, tracked,
+                    helpers=waiter({"k": "cmp", "l": "X", "op": ">=", "r": 4}), setup=settle))
+    rows.append(row("Queue.close with a receiver waiting", {"op": "close", "on": "Q"}, queue,
+                    helpers=[{"name": "h", "ops": [{"op": "get", "on": "Q"}]}], setup=settle))
+    rows.append(row("Queue.close with an iterating receiver waiting", {"op": "close", "on": "Q"},
+                    queue, helpers=[{"name": "h", "ops": [{"op": "iter", "on": "Q"}]}],
+                    setup=settle))
+    rows.append(row("Channel.close with a consumer waiting", {"op": "close", "on": "C"}, channel,
+                    helpers=[{"name": "h", "ops": [{"op": "get", "on": "C"}]}], setup=settle))
+    rows.append(row("Channel.close with an iterating consumer waiting", {"op": "close", "on": "C"},
+                    channel, helpers=[{"name": "h", "ops": [{"op": "iter", "on": "C"}]}],
+                    setup=settle))
+    hungry = [{"name": "h", "ops": [{"op": "borrow", "on": "R", "id": "hb", "mode": "borrow",
+                                     "amounts": {"a": 4}, "body": []}]}]
+    rows.append(row("Resources.increase with a borrower waiting for it",
+                    {"op": "adjust", "on": "R", "how": "increase", "amounts": {"a": 2}},
+                    {"R": {"kind": "resources", "levels": {"a": 2, "b": 2}}}, helpers=hungry,
+                    setup=settle, between=("adjust+", "adjust-")))
+    for kind in ("capacities", "resources"):
+        rows.append(row("%s borrow exit with a borrower waiting for the amount" % kind,
+                        {"op": "borrow", "on": "R", "id": "b", "mode": "borrow",
+                         "amounts": {"a": 2}, "body": [{"op": "postpone", "k": 3}]},
+                        {"R": {"kind": kind, "levels": {"a": 4, "b": 2}}},
+                        helpers=[{"name": "h", "ops": [{"op": "postpone", "k": 2}] + hungry[0]["ops"]}],
+                        between=("borrow.leave", "borrow.done")))
+    rows.append(row("leave Scope with somebody awaiting the scope",
+                    {"op": "scope", "label": "S", "children": [],
+                     "body": [{"op": "postpone", "k": 3}]},
+                    helpers=[{"name": "h", "ops": [{"op": "postpone", "k": 1},
+                                                   {"op": "await_scope", "scope": "S"}]}],
+                    between=("scope.body-", "scope-")))
     rows.append(row("leave Scope with finished child",
                     {"op": "scope", "label": "S", "children": [{"name": "kid", "ops": []}],
                      "body": [{"op": "postpone", "k": 3}]}, between=("scope.body-", "scope-")))
